@@ -590,8 +590,8 @@ def _rel(op, a, b):
     if d.has(sympy.nan, sympy.zoo, sympy.oo):
         raise Undef()
     if not d.is_Rational:
-        d = sympy.N(d, 40)
-    if d != 0 and abs(d) < sympy.Rational(1, 10**12):
+        d = sympy.N(d, 40)            # symbolic (exp, log, sqrt): decided as it is; exp(-30) is not 0
+    elif d != 0 and abs(d) < sympy.Rational(1, 10**12):
         d = sympy.Integer(0)          # float literals are folded in binary floating point by sympy/symengine
     return {"gt": d > 0, "ge": d >= 0, "lt": d < 0, "le": d <= 0, "eq": d == 0, "ne": d != 0}[op]
 
@@ -600,6 +600,24 @@ FN = {"exp": lambda a: sympy.exp(a), "log": lambda a: sympy.log(a), "sqrt": lamb
 
 
 _MOD_FORTRAN = [True]
+
+
+def _kleene(is_and, thunks):
+    """three-valued AND/OR: a decided operand decides the result even if another operand is undefined
+    (NM-TRAN does not evaluate the ELSE IF condition of a block whose earlier branch is taken, whereas sympy merges
+    `(v, c1), (v, c2)` into `(v, c1 | c2)`; `true | undefined` must then be true)."""
+    undef = None
+    for th in thunks:
+        try:
+            v = th()
+        except Undef as u:
+            undef = u
+            continue
+        if v != is_and:          # a false operand of AND / a true operand of OR decides
+            return v
+    if undef is not None:
+        raise undef
+    return is_and
 
 
 def ev(s, env):
@@ -620,12 +638,8 @@ def ev(s, env):
         raise Undef("nopiece")
     if op == "ite":
         return ev(s[2], env) if _truth(ev(s[1], env)) else ev(s[3], env)
-    if op == "and":
-        a, b = _truth(ev(s[1], env)), _truth(ev(s[2], env))
-        return a and b
-    if op == "or":
-        a, b = _truth(ev(s[1], env)), _truth(ev(s[2], env))
-        return a or b
+    if op in ("and", "or"):
+        return _kleene(op == "and", [lambda q=q: _truth(ev(q, env)) for q in s[1:]])
     if op == "not":
         return not _truth(ev(s[1], env))
     a = ev(s[1], env)
@@ -687,8 +701,7 @@ def ev_sympy(e, env):
                 return ev_sympy(val, env)
         raise Undef("nopiece")
     if isinstance(e, (sympy.And, sympy.Or)):
-        vals = [_truth(ev_sympy(a, env)) for a in e.args]
-        return all(vals) if isinstance(e, sympy.And) else any(vals)
+        return _kleene(isinstance(e, sympy.And), [lambda a=a: _truth(ev_sympy(a, env)) for a in e.args])
     if isinstance(e, sympy.Not):
         return not _truth(ev_sympy(e.args[0], env))
     if isinstance(e, sympy.core.relational.Relational):
